@@ -48,6 +48,14 @@ def configs(tier):
             out.append(mkcfg(f"bet-agrapa-{tag}-{ut}", "BETTING", "agrapa", N, u, lam=F(1, 2)))
             if u > 1:
                 out.append(mkcfg(f"alpha-optcomp-{tag}-{ut}", "ALPHA", "optcomp", N, u))
+                out.append(mkcfg(f"alpha-optcomp0-{tag}-{ut}", "ALPHA", "optcomp", N, u, p2=F(0)))
+            if u == 1:    # parameter corners: initial bet beyond the cap, alternative close to u, heavy shrinkage
+                out.append(mkcfg(f"bet-agrapa-lam52-{tag}-{ut}", "BETTING", "agrapa", N, u, lam=F(5, 2)))
+                out.append(mkcfg(f"bet-agrapa-cg34-{tag}-{ut}", "BETTING", "agrapa", N, u, lam=F(1, 4), cg=F(3, 4)))
+                out.append(mkcfg(f"alpha-fixed-eta78-{tag}-{ut}", "ALPHA", "fixed", N, u, eta=F(7, 8)))
+                out.append(mkcfg(f"alpha-shrink-d100-{tag}-{ut}", "ALPHA", "shrink", N, u, d=100, c=F(1, 2),
+                                 eta=F(15, 16)))
+                out.append(mkcfg(f"bet-fixed-lam14-{tag}-{ut}", "BETTING", "fixedbet", N, u, lam=F(1, 4)))
             out.append(mkcfg(f"sprt-{tag}-{ut}", "SPRT", "none", N, u))
         if N == 0:
             for g in (F(0), F(1, 8)):
